@@ -273,6 +273,8 @@ def expect_slice_loop(events: List[Ev], terminal: Any, parent: Inst, container: 
         return x.bad(f"trace is {show_trace(evs)}, expected one loop over the sliced array", evs[0] if evs else None)
     fe = evs[0]
     src: Source = fe.src
+    if src.view == "enumerate" and isinstance(src.base, Source) and src.base.view == "slice":
+        return x.bad("location keys are positions within the slice (enumerate over list[slice]), not the elements' array indices", fe)
     if src.view != "zip" or not isinstance(src.base, tuple) or len(src.base) != 2:
         x.undecided = f"slice selection is not expressed as zip(range(*slice.indices(len)), list[slice]) but as {src!r}; cannot be decided under assumption A2"
         # a host slice of the document with another slice object is still a definite error
